@@ -20,7 +20,7 @@ Extraction "../ocaml/model.ml"
   RPTree.make_euclidean_tree RPTree.convert_tree_format RPTree.leaf_rows RPTree.flat_chk RPTree.linked_chk RPTree.descend
   Search.search_one Search.translate Search.fmul32
   SparseOps.sparse_sum SparseOps.sparse_diff SparseOps.sparse_mul SparseOps.sparse_dot_product SparseOps.fast_intersection_size
-  Lattice.squared_euclidean Lattice.manhattan Lattice.chebyshev Lattice.hamming Lattice.bray_curtis Lattice.sparsify Lattice.cosine Lattice.alternative_cosine Lattice.dot Lattice.alternative_dot
+  Lattice.squared_euclidean Lattice.manhattan Lattice.chebyshev Lattice.hamming Lattice.bray_curtis Lattice.sparsify Lattice.cosine Lattice.alternative_cosine Lattice.dot Lattice.alternative_dot Lattice.sparse_cosine Lattice.sparse_alternative_cosine
   Lattice.sparse_squared_euclidean Lattice.sparse_manhattan Lattice.sparse_chebyshev Lattice.sparse_hamming
   Metrics.counts Metrics.m_hamming Metrics.m_matching Metrics.m_jaccard Metrics.m_dice Metrics.m_kulsinski
   Metrics.m_rogerstanimoto Metrics.m_sokalmichener Metrics.m_russellrao Metrics.m_sokalsneath Metrics.m_yule
